@@ -233,7 +233,65 @@ func hashOps(ops []string) string {
 // reported as a hang (the goroutine is abandoned).
 var CaseTimeout = 10 * time.Minute
 
+// Isolate, when set, is the command prefix (binary, property id) that runs one case's
+// implementation side in a child process ("<bin> <ID> implonly", case JSON on stdin, outputs
+// JSON on stdout): used after the in-process run died, so that the crashing input is found.
+var Isolate []string
+
+func runIsolated(c Case) []string {
+	in, _ := json.Marshal(c)
+	cmd := exec.Command(Isolate[0], append(append([]string{}, Isolate[1:]...), "implonly")...)
+	cmd.Stdin = bytes.NewReader(in)
+	var stdout, stderr bytes.Buffer
+	cmd.Stdout, cmd.Stderr = &stdout, &stderr
+	timer := time.AfterFunc(CaseTimeout, func() { cmd.Process.Kill() })
+	err := cmd.Run()
+	timer.Stop()
+	var out []string
+	if err == nil && json.Unmarshal(stdout.Bytes(), &out) == nil {
+		return out
+	}
+	// the first lines of the crash report identify it
+	msg := stderr.String()
+	first := ""
+	for _, l := range strings.Split(msg, "\n") {
+		if strings.HasPrefix(l, "panic:") || strings.HasPrefix(l, "fatal error:") {
+			first = l
+			break
+		}
+	}
+	if len(msg) > 1500 {
+		msg = msg[:1500]
+	}
+	return []string{fmt.Sprintf("PROCESS-CRASH %s || %v || %s", first, err, strings.ReplaceAll(msg, "\n", " | "))}
+}
+
+// crashVerdict: a crash of the process that runs the implementation is a violation of every
+// property checked here, whatever the property's own oracle looks at.
+func crashVerdict(out []string) (Verdict, bool) {
+	for _, o := range out {
+		if strings.HasPrefix(o, "PROCESS-CRASH") {
+			first := strings.TrimSpace(strings.SplitN(strings.TrimPrefix(o, "PROCESS-CRASH"), "||", 2)[0])
+			if len(first) > 120 {
+				first = first[:120]
+			}
+			return Verdict{OK: false, Why: o, Signature: "process crash: " + first}, true
+		}
+	}
+	return Verdict{}, false
+}
+
+func oracle(p Prop, c Case, out []string) Verdict {
+	if v, ok := crashVerdict(out); ok {
+		return v
+	}
+	return p.Oracle(c, out)
+}
+
 func safeRunImpl(p Prop, c Case) []string {
+	if Isolate != nil {
+		return runIsolated(c)
+	}
 	done := make(chan []string, 1)
 	go func() { done <- safeRunImpl1(p, c) }()
 	select {
@@ -260,7 +318,7 @@ func failing(p Prop, cfg *Config, c Case, kind string) bool {
 	c = prep(p, c)
 	impl := safeRunImpl(p, c)
 	if kind == "impl-violation" {
-		return !p.Oracle(c, impl).OK
+		return !oracle(p, c, impl).OK
 	}
 	if p.Model() == "" {
 		return false
@@ -418,7 +476,7 @@ func Run(p Prop, cfg *Config) (*Result, error) {
 			}
 			res.Samples = append(res.Samples, s)
 		}
-		v := p.Oracle(c, implOut[i])
+		v := oracle(p, c, implOut[i])
 		kind := ""
 		fd := -1
 		if !v.OK {
@@ -444,7 +502,7 @@ func Run(p Prop, cfg *Config) (*Result, error) {
 		unprepared := small
 		small = prep(p, small)
 		si := safeRunImpl(p, small)
-		sv := p.Oracle(small, si)
+		sv := oracle(p, small, si)
 		d := Divergence{Kind: kind, Ops: unprepared.Ops, ImplOut: si, Oracle: "holds", Signature: sv.Signature, FirstDiff: fd}
 		if !sv.OK {
 			d.Kind = "impl-violation"
